@@ -11,6 +11,7 @@ import LP.Driver.Value
 import LP.Driver.Hist
 import LP.Driver.Eval
 import LP.Driver.Infer
+import LP.Driver.Factor
 import Std.Data.HashMap
 open LP LP.Driver
 
@@ -47,6 +48,7 @@ def checkLine (line : String) : String × String × Verdict :=
         | "hist" => checkHist op args r
         | "ev" => checkEval2 op args r
         | "inf" => checkInfer op args r
+        | "fac" => checkFactor op args r
         | "ugcd" => checkUGcd op args r
         | "refs" => checkRefs args r
         | _ => Verdict.skip s!"unknown family {fam}"
